@@ -103,6 +103,36 @@ def mk_driver(world, name, cls=None, front="spidev", cost=30 * US, plus=True, sp
     return drv, r
 
 
+def bystander(world, cls=None, name="bystander", stage="all"):
+    """A second driver object of the same class in the same program, on a radio of its own, on a channel nobody else
+    uses: it is configured with values that differ from everybody else's and makes one transmission that fails.  Objects
+    do not share state ("settings made through one object never leak into another"), so on a correct library this is
+    invisible to every other object; a check calls it AFTER the object under test was configured and BEFORE the judged
+    operation.  -> (driver, radio); the caller keeps the result alive inside its state."""
+    cls = RF24 if cls is None else cls
+    lite = cls is LiteRF24
+    d, r = mk_driver(world, name, cls=cls, front="busio" if lite else "spidev")
+    d.channel = 3
+    d.dynamic_payloads = False
+    d.payload_length = 7 if lite else [7, 8, 9, 10, 11, 12]
+    d.arc = 1
+    d.ard = 250
+    d.open_rx_pipe(0, b"\x0f\x1e\x2d\x3c\x4b")
+    d.open_rx_pipe(1, b"\x5a\x69\x78\x87\x96")
+    d.open_rx_pipe(4, b"\x44")
+    d.listen = True
+    d.listen = False
+    d.open_tx_pipe(b"\xb1\xc2\xd3\xe4\xf5")
+    if not lite:
+        d.interrupt_config(False, True, False)
+        d.pa_level = -12
+        d.data_rate = 2
+        d.set_auto_ack(False, 5)
+    world.advance(300 * US)
+    d.send(b"by")  # nobody listens: leaves MAX_RT and a payload in ITS radio, and its status in ITS cache
+    return d, r
+
+
 def attach_driver(world, radio, cls, front="spidev", cost=30 * US, **kw):
     """another driver object on an existing radio (shared radio, C09)"""
     world.activate()
@@ -139,11 +169,42 @@ def driver_state(obj, drop=("_spi", "_ce_pin", "_in", "_out", "_rf24", "block_le
         out.append(("_in0", obj._in[0]))
     if hasattr(obj, "_rf24"):
         out.append(("_rf24", driver_state(obj._rf24)))
+    al = _alias_sig(obj, drop)
+    if al:
+        out.append(("<aliases>", al))
     return tuple(out)
 
 
+def _alias_sig(obj, drop):
+    """which mutable buffers / containers reachable from the object's attributes are ONE object: two states with equal
+    values but different sharing have different futures (a write through one name shows through the other), so sharing is
+    part of the canonical state.  -> sorted tuple of groups of attribute paths (groups of one path are left out)"""
+    seen = {}
+
+    def walk(v, path, depth):
+        if isinstance(v, memoryview):
+            v = v.obj
+        if isinstance(v, (bytearray, list, dict)):
+            seen.setdefault(id(v), []).append(path)
+            if depth and isinstance(v, list):
+                for i, x in enumerate(v):
+                    walk(x, "%s[%d]" % (path, i), depth - 1)
+            elif depth and isinstance(v, dict):
+                for k, x in v.items():
+                    walk(x, "%s[%r]" % (path, k), depth - 1)
+        elif depth and hasattr(v, "__dict__") and not isinstance(v, type) and type(v).__module__.startswith("circuitpython_nrf24l01"):
+            for k, x in vars(v).items():
+                if k not in drop:
+                    walk(x, "%s.%s" % (path, k), depth - 1)
+
+    for k, v in vars(obj).items():
+        if k not in drop:
+            walk(v, k, 2)
+    return tuple(sorted(tuple(sorted(p)) for p in seen.values() if len(p) > 1))
+
+
 def _canon_val(v):
-    if isinstance(v, (bytes, bytearray)):
+    if isinstance(v, (bytes, bytearray, memoryview)):
         return bytes(v)
     if isinstance(v, (list, tuple)):
         return tuple(_canon_val(x) for x in v)
